@@ -24,6 +24,10 @@ def magF (x p m : Float) : Expr → Float
   | .div a b => magF x p m a / Float.abs (b.evalF x p m)
   | .neg a | .abs a => magF x p m a
   | .powNat a n => Float.pow (magF x p m a) (Float.ofNat n)
+  -- a rounding error of the argument is amplified by 1 / argument (`log(1 + m)` vs `log1p(m)`)
+  | .log a => Float.abs (Float.log (a.evalF x p m)) + magF x p m a / Float.abs (a.evalF x p m)
+  | .sqrt a => Float.sqrt (magF x p m a)
+  | .ite c a b => if c.evalF x p m == 0 then magF x p m b else magF x p m a
   | e => Float.abs (e.evalF x p m)
 
 /-- polynomial stand-in (loss, gradient) pairs, exact over the rationals; the harness
@@ -70,11 +74,25 @@ open C12
 
 def ops12 : List (String × Op) := [
   -- generated handle expression (or its symbolic derivative) evaluated in doubles
+  -- the expression is named either by its Python name (`name`) or as a cell of the selection table
+  -- (`obj` + `which` = "fn" | "grad": what `fg_setup.setup` returns for that objective, however it is
+  -- wrapped in the source)
   ("gcp_expr", fun j => do
-    let name ← field j "name" >>= asStr
     let deriv ← field j "deriv" >>= asBool
     let pts ← field j "pts" >>= asList (asList asFloatBits)
-    match Handles.byName.lookup name with
+    let e? : Option Expr ← (match fieldOpt j "obj" with
+      | some oj => do
+        let on ← asStr oj
+        let which ← field j "which" >>= asStr
+        match Objective.all.find? (fun o => o.name == on) with
+        | none => pure none
+        | some o =>
+          let row := Handles.setupTable o
+          pure (some (if which == "grad" then row.grad else row.fn))
+      | none => do
+        let name ← field j "name" >>= asStr
+        pure (Handles.byName.lookup name))
+    match e? with
     | none => .ok Json.null   -- no such handle in the current source
     | some e =>
       let e := if deriv then e.D else e
